@@ -139,9 +139,10 @@ Section ServerProof.
 
   Lemma encoder_data_outs st dev p rx c now : Forall (fun o => out_eui o = d_eui dev) (snd (encoder_data E st dev p rx c now)).
   Proof.
-    unfold encoder_data. destruct (encode_message _ _ _ _); try constructor.
-    destruct (l_update_device_state _ _) as [st2 [e|]]; cbn [snd]; try constructor.
-    destruct (length a =? 0)%nat; repeat constructor.
+    unfold encoder_data. destruct (encode _); try constructor.
+    destruct (l_next_fdn st) as [st1 [cn|]]; cbn [snd]; try constructor.
+    destruct (encode_message _ _ _ _) as [bf| |]; cbn [snd]; try constructor.
+    destruct (length bf =? 0)%nat; repeat constructor.
   Qed.
   Lemma encoder_join_outs st dev j rx : Forall (fun o => out_eui o = d_eui dev) (snd (encoder_join E D st dev j rx)).
   Proof.
@@ -158,7 +159,9 @@ Section ServerProof.
   Lemma pm_counter_eui st dev f n st1 dev1 : pm_counter st dev f n = Some (st1, dev1) -> d_eui dev1 = d_eui dev.
   Proof.
     unfold pm_counter. destruct (d_fup dev <=? fcnt f).
-    - destruct (l_update_device_state _ _) as [x [e|]]; [discriminate|]. intros [= _ <-]. reflexivity.
+    - destruct (l_advance_fup _ _ _ _) as [x [[]|]]; try discriminate.
+      + destruct (d_relaxed dev); [|discriminate]. intros [= _ <-]. reflexivity.
+      + intros [= _ <-]. reflexivity.
     - intros [= _ <-]. reflexivity.
   Qed.
 
